@@ -22,6 +22,9 @@ type Sim struct {
 	n    *Node
 	prof string
 
+	clockSteppedBack bool // the adjusted clock was moved back once in this run
+	skewPeers        int
+
 	delivered map[*MBlock]bool // ProcessBlock was called and did not fail with an internal error
 	doubt     map[*MBlock]bool // delivered as orphan, may have been expired/evicted since
 	manualInv map[*MBlock]bool
